@@ -17,7 +17,7 @@
    the inner error kind.  The thin wrappers at the end instantiate the targets
    from Model/Poly.v for both polynomial types and both modes. *)
 From Coq Require Import ZArith NArith List Bool Arith.
-From SV Require Import Base.Num Base.Outcome Model.Poly.
+From SV Require Import Base.Num Base.Outcome Model.Poly Gen.Consts.
 Import ListNotations.
 Local Open Scope res_scope.
 
@@ -25,7 +25,8 @@ Section Solvers.
   Context {T : Type} {NT : Num T}.
 
   Definition c100 : T := nofZ 100.                     (* 100.0 / 100_f64 *)
-  Definition gate : T := nofdec 1 (-4).                (* 1e-4 *)
+  (* the literal of `poss_sol.abs() < 1e-4`, re-read from the source on every run (Gen/Consts.v) *)
+  Definition gate : T := nofdec (fst bisection_residual_gate) (snd bisection_residual_gate).
   (* f64::is_finite: x - x is 0 for a finite x and NaN for an infinity or a NaN *)
   Definition nfinite (x : T) : bool := neqb (nsub x x) n0.
 
